@@ -53,6 +53,10 @@ SHAPES += [
     # rows of cells: an element that may evaluate to an empty list
     [("S", [[rep(A, "+", "comma")]]), ("A", [[rep(a, "*")]])],
     [("S", [[rep(grp([rep(a, "*")]), "+", "comma")]])],
+    # separators that are RULES, evaluating to None when their optional content is absent (dropped by position)
+    [("S", [[rep(a, "+", "Sep")]]), ("Sep", [[rep(("t", ","), "?")]])],
+    [("S", [[rep(A, "*", "Sep"), b]]), RULE_A, ("Sep", [[rep(("t", ","), "?")]])],
+    [("S", [[rep(grp([a, b]), "+", "Sep")]]), ("Sep", [[("t", ",")], [rep(("t", ","), "?"), ("t", ",")]])],
     # a user rule whose name looks like a helper name (A_1 is what A+ expands to)
     [("S", [[rep(A, "+"), b, ("n", "A_1")]]), ("A", [[a]]), ("A_1", [[b]])],
     [("S", [[rep(A, "?"), b, ("n", "A_opt")]]), ("A", [[a]]), ("A_opt", [[b, b]])],
